@@ -146,7 +146,7 @@ def m_dyn_access(ex, callee, args, ret_ty, frame):
 VM_CFG = dict(
     inline=[r"^InterpStack::", r"CelStackValue", r"^CelByteCode::len$", r"<CelByteCode as Index", r"^JmpWhen::", r"<JmpWhen as PartialEq",
             r"checked_jump_target", r"^CelValue::(is_err|into_result|from_err|from_null|true_|false_|from_bool|from_ident|from_list|from_map)$",
-            r"^ScopedCounter", r"^CelError::\w+$", r"^Interpreter::(get_\w+_by_name|callable_by_name|call_macro|resolve_args)$",
+            r"^ScopedCounter", r"^CelError::\w+$", r"^Interpreter::\w+$",
             r"<CelValue as From<(bool|CelError|HashMap<String, CelValue>)>>::from", r"^RsCallable::"],
     opaque_types=("CelContext", "BindContext", "HashMap", "String", "CelBytes", "DateTime", "Duration", "Arc", "Program", "CelByteCode"),
     models=[
@@ -166,6 +166,8 @@ VM_CFG = dict(
     seq_bound=2,
     loop_bound=10,
     max_call_depth=14,
+    inline_default=True,
+    keep_uninterpreted=[r"^<CelValue as ", r"^CelValue::(as_type|or|and|lt|le|gt|ge|neq|in_|index|ord|eq|is_truthy)$", r"^construct_type$", r"^(BindContext|CelContext|Program)::"],
 )
 
 
@@ -761,7 +763,14 @@ def vm_scenario(ex):
             if env_some("macro", nv):
                 req["macros"].append(n)
             if env_some("program", nv):
-                req["programs"][n] = "40 + 2"
+                src = "40 + 2"
+                pv = vid_of(ex, ex.adt_fields(ex.lazy[("env", "program", nv)], 1)[0])
+                code = ex.lazy.get(("env", "code", pv))
+                for e in ex.trace:
+                    if e.name == "run_raw" and code is not None and e.extra.get("code") == vid_of(ex, code) and variant(e.ret) == "Err":
+                        k = variant(ex.adt_fields(e.ret, 1)[0])
+                        src = {"DivideByZero": "1 / 0", "Value": "[1][5]", "InvalidOp": "1 < 'a'", "Attribute": "{'a': 1}.b", "Binding": "zz_unbound_q", "Argument": "size(1, 2)"}.get(k, "1 / 0")
+                req["programs"][n] = src
             return n
 
         def value(v, allow_ident=True):
@@ -915,7 +924,8 @@ def check_vm(res, V):
         cur = ex.notes["interp"].fields[2].fields[0].fields[0]
         live = ex.read(ex.notes["interp_ref"].root, ())
         cur = live.fields[2].fields[0].fields[0]
-        V.check(ex, "call-depth counter restored on exit", cur.bv == d0.bv, assumed, detail=lambda: f"depth on exit {cur!r}, on entry {d0!r}", scenario=scen, prefer=pref)
+        V.check(ex, "call-depth counter restored on exit", cur.bv == d0.bv, assumed, detail=lambda: f"depth on exit {cur!r}, on entry {d0!r}",
+                scenario=lambda model: {"kind": "depth_probe", "exit_kind": "error" if (isinstance(ret.discr, int) and ret.discr == 1) else "value"})
 
 
 TARGETS = []
